@@ -6,6 +6,7 @@
     2. evaluates the property monitors of `Hagall.Spec.Monitors` on the implementation's own trace.
   Output: one `R` line per history (ok | diff ...) and one `M` line per monitor violation.
 -/
+import Hagall.Spec.RegistryExplore
 import Hagall.Spec.Monitors
 import Hagall.Model.Latency
 import Hagall.Model.Auth
@@ -40,6 +41,7 @@ structure Hist where
   concBlocks : Nat := 0
   concOdd : Nat := 0               -- blocks whose outcome no serial order of the requests explains
   note : Option String := none
+  regChecked : Nat := 0             -- join-only blocks whose outcome was compared with the concurrent registry model
   concMembers : Option (List (Nat × Nat)) := none   -- (connection, session number) right after a concurrent block, until the next event that is not a tick
 deriving Inhabited
 
@@ -341,6 +343,27 @@ def processConc (h : Hist) (b : Block) (otoks : List String) : Hist :=
       if twins.isEmpty then h else
         { h with concViol := h.concViol.push ("C10", "live-sessions-share-an-id",
             (" ".intercalate b.ev) ++ s!" :: connections {twins.map Prod.fst} live in sessions numbered {twins.map fun (m : Nat × Nat × Bool) => m.2.1}, and other sessions are registered under the same numbers") }
+  -- Layer C correspondence for the registry: when every request of the block is a join, the outcome must be one the
+  -- proved concurrent model reaches from the same state under some interleaving of its critical sections
+  let h := match parseConc b.ev, b.quies with
+    | some tasks, some (members, counts) =>
+      let rtasks := tasks.filterMap fun (t : Nat × Option Req) =>
+        match t.2 with
+        | some (.join _ _ .new) => some (t.1, Registry.Req.joinNew)
+        | some (.join _ _ (.id n)) => some (t.1, Registry.Req.joinId n)
+        | some (.join _ _ .bogus) => some (t.1, Registry.Req.joinId 1000000007)
+        | _ => none
+      if h.blind || rtasks.length != tasks.length then h else
+      let outs := Registry.explore rtasks (Registry.fromServer h.srv)
+      let impl : Registry.Outcome :=
+        { where_ := rtasks.map fun (t : Nat × Registry.Req) =>
+            (t.1, (members.find? fun (m : Nat × Nat × Bool) => m.1 == t.1).map fun (m : Nat × Nat × Bool) => (m.2.1, m.2.2)),
+          registered := Registry.sortNats (counts.map Prod.fst), gauge := b.gauge }
+      if outs.contains impl then { h with regChecked := h.regChecked + 1 } else
+        { h with regChecked := h.regChecked + 1,
+                 concViol := h.concViol.push ("C07", "registry-model-unreachable",
+                   (" ".intercalate b.ev) ++ s!" :: the handlers ended in {reprStr impl}; the model of the registry's critical sections reaches, from the same state, only {reprStr outs}") }
+    | _, _ => h
   match parseConc b.ev with
   | none => { h with diff := some s!"event={evNo} kind=parse topic=conc :: cannot parse {b.ev}" }
   | some tasks =>
@@ -411,7 +434,7 @@ def finishHist (h : Hist) : IO Unit := do
     IO.println s!"M {h.idx} {v.prop} {v.cause} event={v.event} :: {v.detail}"
   for v in h.concViol do
     IO.println s!"M {h.idx} {v.1} {v.2.1} event=0 :: {v.2.2}"
-  if h.concBlocks > 0 then IO.println s!"C {h.idx} blocks={h.concBlocks} unserializable={h.concOdd}{match h.note with | some n => " :: " ++ n | none => ""}"
+  if h.concBlocks > 0 then IO.println s!"C {h.idx} blocks={h.concBlocks} unserializable={h.concOdd} registry={h.regChecked}{match h.note with | some n => " :: " ++ n | none => ""}"
 
 /-- `STAT n l_1 .. l_{n-1} L | min max mean p95 last sig count=.. ids=..`: one completed measurement of the real
     `models.SignedLatency` with preset round latencies (the final round's end time is the wall clock, so its
